@@ -32,6 +32,8 @@ Cases == {c \in (Struct \X {GenCap}) \cup (All \X {ExhCap}) : MaxNeed(c[1]) <= c
 GInit == \E c \in Cases : gs = c[1] /\ gcap = c[2]
 GNext == FALSE /\ UNCHANGED <<gs, gcap>>
 GSpec == GInit /\ [][GNext]_<<gs, gcap>>
-Case(s, cap) == [s |-> s, cap |-> cap, need |-> MaxNeed(s), acc |-> AcceptableC(s, "eof", cap)]
+\* (the reader puts the slices of a line together again: what it owes is exactly the lines -- AcceptableC with no
+\* bound; pinned |-> what the pinned reader, which dispatched every slice by itself, could produce)
+Case(s, cap) == [s |-> s, cap |-> cap, need |-> MaxNeed(s), acc |-> AcceptableC(s, "eof", 0), pinned |-> AcceptableC(s, "eof", cap)]
 Emit == PrintT("@@B " \o ToJson(Case(gs, gcap)))
 =============================================================================
